@@ -135,13 +135,19 @@ fn c17_actor_put_registers_a_write_only_if_it_started() {
         START_OK = start_ok;
     }
     let target = crate::core::verif_kani::id1(0x10);
-    let req = PutRequestSpecific::PutMutable(crate::common::PutMutableRequestArguments { target, v: Box::new([1]), k: [1; 32], seq: 3, sig: [2; 64], salt: None, cas: None });
-    let r = a.put(req, None);
+    let mk = || PutRequestSpecific::PutMutable(crate::common::PutMutableRequestArguments { target, v: Box::new([1]), k: [1; 32], seq: 3, sig: [2; 64], salt: None, cas: None });
+    // arbitrary pre-state: the very same item may already be in flight (an identical put is
+    // accepted: "both calls succeed"); the second call must still be driven to completion
+    let prior: bool = kani::any();
+    if prior {
+        a.core.put_queries.insert(target, PutQuery::new(mk(), None));
+    }
+    let r = a.put(mk(), None);
     let registered = a.core.put_queries.a.is_some() || a.core.put_queries.b.is_some();
     if cached {
         assert!(unsafe { START_CALLS } == 1 && unsafe { GET_CALLS } == 0, "fresh cached closest nodes: the store requests are sent at once");
         assert!(r.is_ok() == start_ok, "C06/C08: a put that could not be started fails at once");
-        assert!(registered == start_ok, "C17: a put that failed at once is not left registered as in flight (a later put for the same key must not be compared with it)");
+        assert!(registered == (start_ok || prior), "C17: a put that failed at once is not left registered as in flight (a later put for the same key must not be compared with it)");
     } else {
         assert!(unsafe { GET_CALLS } == 1 && unsafe { START_CALLS } == 0, "no cached nodes: a lookup is started and the put waits for it");
         assert!(r.is_ok() && registered, "C17: the waiting put is registered, so that a concurrent put for the same key is compared with it");
@@ -149,6 +155,7 @@ fn c17_actor_put_registers_a_write_only_if_it_started() {
     kani::cover!(cached && !start_ok);
     kani::cover!(cached && start_ok);
     kani::cover!(!cached);
+    kani::cover!(!cached && prior, "an identical put while the first one is still waiting for its lookup");
     core::mem::forget(r);
     core::mem::forget(a);
 }
